@@ -370,12 +370,16 @@ def apply_init(o, t, ini, st):
 
 def run_list(o, t, items, st):
     cursor = [0]
+    after_range = False
     popped = False      # the cursor left an inner aggregate that was entered by a nested designator
     for desig, ini in items:
         if not desig and popped and ini['k'] == 's':
             # gcc applies such a string to the enclosing array of the designated element, 6.7.9p17 reads as "next subobject"
             st.undefined = "string literal following a nested designator that ended an inner aggregate"
+        if not desig and after_range:
+            st.flags.add('range-continued')     # positional continuation after a GNU range designator
         if desig:
+            after_range = any(d[0] == 'r' for d in desig)
             paths = resolve(t, desig)
             st.flags.add('designator')
             if len(desig) > 1:
